@@ -183,6 +183,10 @@ func (c Command) ForEach(ctx context.Context, payload xml.TokenReader, s *xmpp.S
 		}
 		c, payload, err = f(resp, respPayload)
 		if err != nil {
+			// The response is ours to close whatever the callback made of it: left
+			// open it blocks the session's serve loop for ever.
+			/* #nosec */
+			respPayload.Close()
 			return err
 		}
 		err = respPayload.Close()
